@@ -43,6 +43,7 @@ type Tok struct {
 	Gap   GapKind
 	Class Class
 	Name  string // canonical name, e.g. "SELECT", ",", "ident", "regex"
+	Val   string // semantic value for identifiers (name), strings (value), regexes (source)
 }
 
 // Builder accumulates tokens.
@@ -60,6 +61,9 @@ type Builder struct {
 func isWordy(r rune) bool {
 	return (r >= 'a' && r <= 'z') || (r >= 'A' && r <= 'Z') || (r >= '0' && r <= '9') || r == '_' || r == 'µ' || r > 127
 }
+
+// AutoGap is the exported form of the fusion table.
+func AutoGap(prev, next string) GapKind { return autoGap(prev, next) }
 
 // autoGap decides whether two adjacent spellings could fuse into one token.
 func autoGap(prev, next string) GapKind {
@@ -206,6 +210,7 @@ func (b *Builder) Ident(name string) {
 		cls = CQIdent
 	}
 	b.push(s, cls, "ident", 0, false)
+	b.Toks[len(b.Toks)-1].Val = name
 }
 
 // IdentNone emits an identifier that must touch its predecessor.
@@ -241,13 +246,19 @@ func (b *Builder) StrSpell(v string) string {
 }
 
 // Str emits a string literal.
-func (b *Builder) Str(v string) { b.push(b.StrSpell(v), CStr, "string", 0, false) }
+func (b *Builder) Str(v string) {
+	b.push(b.StrSpell(v), CStr, "string", 0, false)
+	b.Toks[len(b.Toks)-1].Val = v
+}
 
 // RegexSpell writes /src/ with slashes escaped.
 func RegexSpell(src string) string { return "/" + strings.ReplaceAll(src, "/", `\/`) + "/" }
 
 // Regex emits a regex literal.
-func (b *Builder) Regex(src string) { b.push(RegexSpell(src), CRegex, "regex", 0, false) }
+func (b *Builder) Regex(src string) {
+	b.push(RegexSpell(src), CRegex, "regex", 0, false)
+	b.Toks[len(b.Toks)-1].Val = src
+}
 
 // Gap describes one inter-token gap of a rendering.
 type Gap struct {
